@@ -102,6 +102,48 @@ def extractor(f):
     return f
 
 
+
+@extractor
+def ip_numbers(out):
+    t = parse("controller/ip/connection.py")
+    d = {}
+    for n in t.body:
+        if isinstance(n, ast.Assign) and isinstance(n.targets[0], ast.Name):
+            name = n.targets[0].id
+            if name == "TAG_LENGTH" and isinstance(n.value, ast.Constant):
+                d["TAG_LENGTH"] = n.value.value
+            if name == "UNSIGNED_SHORT_LITTLE" and isinstance(n.value, ast.Call) and getattr(n.value.func, "id", "") == "Struct":
+                d["lenFormat"] = n.value.args[0].value.lstrip("<")
+                if not n.value.args[0].value.startswith("<"):
+                    d["lenFormat"] = "BIGENDIAN:" + n.value.args[0].value
+    sb = func(t, "send_bytes", "SecureHomeKitProtocol")
+    chunk = sorted({n.slice.upper.value for n in ast.walk(sb) if isinstance(n, ast.Subscript) and isinstance(n.slice, ast.Slice) and isinstance(n.slice.upper, ast.Constant)}
+                   | {n.slice.lower.value for n in ast.walk(sb) if isinstance(n, ast.Subscript) and isinstance(n.slice, ast.Slice) and isinstance(n.slice.lower, ast.Constant)})
+    if len(chunk) != 1:
+        raise Shape(f"SecureHomeKitProtocol.send_bytes chunk slices: {chunk}")
+    d["secureChunk"] = chunk[0]
+    sl = func(t, "_send_lines", "InsecureHomeKitProtocol")
+    tmo = [n for n in ast.walk(sl) if isinstance(n, ast.Call) and getattr(n.func, "attr", "") == "call_at"]
+    if len(tmo) != 1 or not (isinstance(tmo[0].args[0], ast.BinOp) and isinstance(tmo[0].args[0].right, ast.Constant)):
+        raise Shape("_send_lines call_at timeout")
+    d["requestTimeout"] = tmo[0].args[0].right.value
+    t2 = parse("crypto/chacha20poly1305.py")
+    for n in t2.body:
+        if isinstance(n, ast.Assign) and getattr(n.targets[0], "id", "") == "PACK_NONCE":
+            v = n.value  # partial(Struct("<LQ").pack, 0)
+            try:
+                d["nonceFormat"] = v.args[0].value.args[0].value
+                d["noncePrefix"] = v.args[1].value
+            except Exception:
+                raise Shape("PACK_NONCE")
+        if isinstance(n, ast.Assign) and getattr(n.targets[0], "id", "") == "NONCE_PADDING":
+            d["NONCE_PADDING"] = ast.literal_eval(n.value.args[0]) if isinstance(n.value, ast.Call) else None
+    for need in ("TAG_LENGTH", "lenFormat", "secureChunk", "nonceFormat", "noncePrefix", "NONCE_PADDING"):
+        if need not in d or d[need] is None:
+            raise Shape("ip/" + need)
+    out["Ip"] = d
+
+
 # --------------------------------------------------------------------------- emission
 
 def emit(out):
@@ -127,6 +169,23 @@ EMITTERS = []
 def emitter(f):
     EMITTERS.append(f)
     return f
+
+
+@emitter
+def emit_ip(out, files):
+    d = out["Ip"]
+    lines = ["/-! GENERATED by tools/translate.py from controller/ip/connection.py and crypto/chacha20poly1305.py - do not edit. -/", "namespace HapVerif.Gen.Ip"]
+    for k, v in d.items():
+        if isinstance(v, bool):
+            lines.append(f"def {k} : Bool := {'true' if v else 'false'}")
+        elif isinstance(v, int):
+            lines.append(f"def {k} : Nat := {v}")
+        elif isinstance(v, str):
+            lines.append(f"def {k} : String := {lean_str(v)}")
+        elif isinstance(v, list):
+            lines.append(f"def {k} : List Nat := {lean_list(v)}")
+    lines.append("end HapVerif.Gen.Ip")
+    files["Ip.lean"] = "\n".join(lines) + "\n"
 
 
 def main():
